@@ -99,6 +99,15 @@ structure State where
   settled : List Settle := []
   /-- ghost: bridge-call nonces whose successful execution on the external chain has been observed -/
   obsSuccess : List Nat := []
+  /-- the part of `bal` held in ERC-20 form (FIP-20 balance of the account's EVM address); `bal` is the account's total
+  holding of the token (base denom + bridge denom + ERC-20) -/
+  erc : Bal := []
+  /-- `x/erc20` store `OutgoingTransferRelation(module, txID)`: ids of the pool entries created through the `crossChain`
+  precompile with an ERC-20 token — a refund of such an entry is converted back to ERC-20 -/
+  relTx : List Nat := []
+  /-- store prefix 0x51 `BridgeCallFromMsgKey`: nonces of the outgoing bridge calls created by `MsgBridgeCall`; every
+  other outgoing bridge call was created by the `bridgeCall` precompile and is refunded in ERC-20 form -/
+  fromMsg : List Nat := []
 
 inductive Res where | ok (n : Nat) | err | panic
   deriving DecidableEq, Repr
@@ -115,6 +124,10 @@ inductive Op where
   | incFee (id : Nat) (who : Addr) (token : Token) (add : Nat)
   | reqBatch (token : Token) (minFee baseFee : Nat) (feeReceive : String)
   | bridgeCall (sender refund : Addr) (to data memo : String) (coins : List (Token × Nat))
+  /-- `crossChain` precompile called by `sender`'s EVM address with the ERC-20 contract of `token` -/
+  | psend (sender : Addr) (dest : String) (token : Token) (amount fee : Nat)
+  /-- `bridgeCall` precompile called by `sender`'s EVM address with ERC-20 contracts and amounts, in the caller's order -/
+  | pcall (sender refund : Addr) (to data memo : String) (coins : List (Token × Nat))
   | observe (height : Nat) (ev : Ev)
   | exec (eventNonce : Nat)
   | setParams (p : Params)
@@ -210,7 +223,15 @@ def callRefundTo (c : Call) : Addr :=
 /-- `HandleOutgoingBridgeCallRefund` + `DeleteOutgoingBridgeCallRecord` bookkeeping for one record -/
 def refundCall (s : State) (c : Call) : State :=
   { s with bal := if callCleanupRefunds then creditAll (callRefundTo c) c.tokens s.bal else s.bal,
+           -- "precompile bridge call, refund to evm": unless the record is marked as created by `MsgBridgeCall`, the
+           -- refunded coins are converted to ERC-20 for the same account (`bridgeCallTransferTokens`)
+           erc := if callCleanupRefunds && callRefundEvmUnlessFromMsg && !(s.fromMsg.contains c.nonce)
+                  then creditAll (callRefundTo c) c.tokens s.erc else s.erc,
            settled := s.settled ++ [⟨true, c.nonce, .refunded, callRefundTo c, c.tokens⟩] }
+
+/-- `DeleteOutgoingBridgeCallRecord`, step 3 (`DeleteBridgeCallFromMsg`) for the given nonces -/
+def dropFromMsg (ns : List Nat) (s : State) : State :=
+  { s with fromMsg := if deleteRecordDropsFromMsg then s.fromMsg.filter (fun n => !ns.contains n) else s.fromMsg }
 
 def callStops (h : Nat) (c : Call) : Bool := callCleanupStopCmp.eval c.timeout h
 
@@ -222,11 +243,18 @@ def expiredCalls (h : Nat) (cs : List Call) : List Call :=
 def keptCalls (h : Nat) (cs : List Call) : List Call :=
   if callCleanupStops then cs.dropWhile (fun c => !callStops h c) else cs.filter (fun c => callStops h c)
 
-/-- `cleanupTimeOutBridgeCall` -/
-def cleanupCalls (s : State) : State :=
+/-- `cleanupTimeOutBridgeCall` without the deletion of the from-message marks -/
+def cleanupCallsCore (s : State) : State :=
   let h := heightOf callCleanupSrc s
   (expiredCalls h s.calls).foldl refundCall
     { s with calls := if callCleanupDeletes then keptCalls h s.calls else s.calls }
+
+/-- `cleanupTimeOutBridgeCall`: every refunded record is deleted together with its from-message mark
+(`DeleteOutgoingBridgeCallRecord`; the marks are per nonce, so deleting them after the refunds is the same as the source's
+refund-delete-refund-delete) -/
+def cleanupCalls (s : State) : State :=
+  let s' := cleanupCallsCore s
+  if callCleanupDeletes then dropFromMsg ((expiredCalls (heightOf callCleanupSrc s) s.calls).map (·.nonce)) s' else s'
 
 /-! ## operations -/
 
@@ -250,6 +278,11 @@ def doCancel (s : State) (id : Nat) (who : Addr) : State × Res :=
     else
       ({ s with pool := s.pool.erase tx,
                 bal := addBal s.bal (who, tx.token) (refundAmount tx),
+                -- `handleOutgoingTransferRelation` → `HookOutgoingRefund`: an entry created through the `crossChain`
+                -- precompile is refunded as ERC-20, and its relation is deleted
+                erc := if cancelRefundHook && s.relTx.contains tx.id then addBal s.erc (who, tx.token) (refundAmount tx)
+                       else s.erc,
+                relTx := if cancelRefundHook then s.relTx.filter (fun i => i != tx.id) else s.relTx,
                 settled := s.settled ++ [⟨false, tx.id, .refunded, who, [(tx.token, refundAmount tx)]⟩] }, .ok 0)
 
 /-- the account `AddUnbatchedTxBridgeFee` debits (read from the source): the message signer or the creator of the entry -/
@@ -303,14 +336,46 @@ def doBridgeCall (s : State) (sender refund : Addr) (to data memo : String) (coi
     if callZeroTimeoutRejects && callZeroTimeoutCmp.eval timeout 0 then (s, .err)
     else
       ({ s with nextCallId := s.nextCallId + 1, bal := bal',
-                calls := s.calls ++ [⟨s.nextCallId, sender, refund, coins, to, data, memo, timeout, s.fxHeight⟩] },
+                calls := s.calls ++ [⟨s.nextCallId, sender, refund, coins, to, data, memo, timeout, s.fxHeight⟩],
+                fromMsg := if msgBridgeCallSetsFromMsg then s.fromMsg ++ [s.nextCallId] else s.fromMsg },
        .ok s.nextCallId)
+
+/-- the `crossChain` precompile with an ERC-20 token (`CrossChainMethod.Run` → `handlerERC20Token` → `outgoingTransfer` →
+`AddToOutgoingPool`, then `SetOutgoingTransferRelation`): `CrossChainArgs.Validate` wants a positive amount and accepts a
+zero fee; the caller's ERC-20 balance must cover amount + fee (`transferFrom`); a failure reverts the whole call -/
+def doPSend (s : State) (sender : Addr) (dest : String) (token : Token) (amount fee : Nat) : State × Res :=
+  if amount = 0 ∨ ¬ token < s.nTokens ∨ validAddr dest = false then (s, .err)
+  else if getBal s.erc (sender, token) < amount + fee ∨ getBal s.bal (sender, token) < amount + fee then (s, .err)
+  else
+    ({ s with nextTxId := s.nextTxId + 1,
+              bal := subBal s.bal (sender, token) (amount + fee),
+              erc := subBal s.erc (sender, token) (amount + fee),
+              pool := insertDesc ⟨s.nextTxId, sender, dest, token, amount, fee⟩ s.pool,
+              relTx := if precompileSendSetsRelation then s.relTx ++ [s.nextTxId] else s.relTx }, .ok s.nextTxId)
+
+/-- the `bridgeCall` precompile with ERC-20 tokens (`BridgeCallMethod.Run` → `EvmToBaseCoin` per token, in the caller's
+order → `AddOutgoingBridgeCall`); the record is *not* marked as coming from a message; `to` is an EVM address (always
+well formed), and there is no "coins or data" requirement -/
+def doPCall (s : State) (sender refund : Addr) (to data memo : String) (coins : List (Token × Nat)) : State × Res :=
+  match debitAll s.nTokens sender coins s.erc, debitAll s.nTokens sender coins s.bal with
+  | some erc', some bal' =>
+    let timeout := calTimeout s s.params.callTimeout
+    if callZeroTimeoutRejects && callZeroTimeoutCmp.eval timeout 0 then (s, .err)
+    else
+      ({ s with nextCallId := s.nextCallId + 1, bal := bal', erc := erc',
+                calls := s.calls ++ [⟨s.nextCallId, sender, refund, coins, to, data, memo, timeout, s.fxHeight⟩],
+                fromMsg := if precompileBridgeCallSetsFromMsg then s.fromMsg ++ [s.nextCallId] else s.fromMsg },
+       .ok s.nextCallId)
+  | _, _ => (s, .err)
 
 /-- `OutgoingTxBatchExecuted` for a batch that exists -/
 def executeBatch (s : State) (b : Batch) : State :=
   let s' := cancelBatches (fun b' => executedCancelsCmp.eval b'.nonce b.nonce &&
                                       (!executedCancelsSameToken || b'.token == b.token)) s
   { s' with batches := s'.batches.erase b,
+            -- "Delete outgoing transfer relation" of every executed transfer
+            relTx := if executedDeletesRelation then s'.relTx.filter (fun i => !(b.txs.any (fun tx => tx.id == i)))
+                     else s'.relTx,
             settled := s'.settled ++ b.txs.map (fun tx => ⟨false, tx.id, .executed, 0, [(tx.token, tx.amount + tx.fee)]⟩) }
 
 /-- `AttestationHandler` in its cache context; `none` = panic (the whole claim transaction is reverted) -/
@@ -365,9 +430,10 @@ def doExec (s : State) (n : Nat) : State × Res :=
       let refunds := if p.2.2 then resultRefundsOnSuccess else resultRefundsOnFailure
       let deletes := if p.2.2 then resultDeletesOnSuccess else resultDeletesOnFailure
       let s1 := { s with pending := s.pending.erase p, calls := if deletes then s.calls.erase c else s.calls }
-      if refunds then (refundCall s1 c, .ok 0)
-      else if p.2.2 then ({ s1 with settled := s1.settled ++ [⟨true, c.nonce, .executed, 0, c.tokens⟩] }, .ok 0)
-      else (s1, .ok 0)
+      let fin := fun (st : State) => if deletes then dropFromMsg [c.nonce] st else st
+      if refunds then (fin (refundCall s1 c), .ok 0)
+      else if p.2.2 then (fin { s1 with settled := s1.settled ++ [⟨true, c.nonce, .executed, 0, c.tokens⟩] }, .ok 0)
+      else (fin s1, .ok 0)
 
 /-- the same with the refund / delete pattern the source has now (see `Proofs.C05.doExec_eq`) -/
 def doExecStd (s : State) (n : Nat) : State × Res :=
@@ -379,8 +445,8 @@ def doExecStd (s : State) (n : Nat) : State × Res :=
     | some c =>
       let s1 := { s with pending := s.pending.erase p, calls := s.calls.erase c }
       if p.2.2 then
-        ({ s1 with settled := s1.settled ++ [⟨true, c.nonce, .executed, 0, c.tokens⟩] }, .ok 0)
-      else (refundCall s1 c, .ok 0)
+        (dropFromMsg [c.nonce] { s1 with settled := s1.settled ++ [⟨true, c.nonce, .executed, 0, c.tokens⟩] }, .ok 0)
+      else (dropFromMsg [c.nonce] (refundCall s1 c), .ok 0)
 
 /-- what `EndBlocker` does to the part of the state modelled here: the clean-ups it calls (regenerated list; none in the
 source as it is), at the new height -/
@@ -395,6 +461,8 @@ def step (s : State) : Op → State × Res
   | .incFee id who t add => doIncFee s id who t add
   | .reqBatch t mf bf fr => doReqBatch s t mf bf fr
   | .bridgeCall a r to d m cs => doBridgeCall s a r to d m cs
+  | .psend a d t am f => doPSend s a d t am f
+  | .pcall a r to d m cs => doPCall s a r to d m cs
   | .observe h ev => doObserve s h ev
   | .exec n => doExec s n
   | .setParams p =>
@@ -408,7 +476,7 @@ def run (s : State) (ops : List Op) : State := ops.foldl (fun s op => (step s op
 /-- initial states: nothing issued yet; ledger, parameters, heights arbitrary -/
 def IsInit (s : State) : Prop :=
   s.nextTxId = 1 ∧ s.nextBatchId = 1 ∧ s.nextCallId = 1 ∧ s.pool = [] ∧ s.batches = [] ∧ s.calls = [] ∧
-  s.pending = [] ∧ s.settled = [] ∧ s.obsSuccess = [] ∧ s.obsExt = 0 ∧ s.eventNonce = 0
+  s.pending = [] ∧ s.settled = [] ∧ s.obsSuccess = [] ∧ s.obsExt = 0 ∧ s.eventNonce = 0 ∧ s.relTx = [] ∧ s.fromMsg = []
 
 def init (nTokens : Nat) (bal : Bal) (p : Params) : State := { nTokens := nTokens, bal := bal, params := p }
 
